@@ -1,9 +1,13 @@
-(* Lemmas about the packet codec model (Model/Packet.v) -- generic little-endian facts first. *)
-From Coq Require Import ZArith List Bool String Lia.
+(* Lemmas about the generic part of the packet model (Model/Packet.v): little-endian integers, struct.pack /
+   struct.unpack_from on parsed formats, the port/core byte.  The codec theorems are in PacketCodec.v. *)
+From Coq Require Import ZArith String List Bool Lia.
 Require Import Rig.Generated.GenPackets Rig.Model.Base Rig.Model.Packet Rig.Spec.Packet.
 Import ListNotations.
 Open Scope Z_scope.
 
+Ltac Zify.zify_post_hook ::= Z.to_euclidean_division_equations.
+
+(* ------------------------------------------------------------------ the generated formats *)
 Lemma formats_parse :
   parse_fmt sdp_header_fmt = Some ([FPad; FPad] ++ repeat (FUInt 1) 8)
   /\ parse_fmt sdp_unpack_fmt = Some ([FPad; FPad] ++ repeat (FUInt 1) 8)
@@ -14,3 +18,187 @@ Lemma formats_parse :
   /\ parse_fmt scp_unpack_arg1_fmt = Some [FUInt 4] /\ parse_fmt scp_unpack_arg2_fmt = Some [FUInt 4]
   /\ parse_fmt scp_unpack_arg3_fmt = Some [FUInt 4].
 Proof. repeat split; vm_compute; reflexivity. Qed.
+
+(* ------------------------------------------------------------------ little-endian integers *)
+Lemma pow256_S : forall n, 256 ^ Z.of_nat (S n) = 256 * 256 ^ Z.of_nat n.
+Proof. intros n. rewrite Nat2Z.inj_succ, Z.pow_succ_r by lia. reflexivity. Qed.
+
+Lemma pow256_pos : forall n, 0 < 256 ^ Z.of_nat n.
+Proof. intros n. apply Z.pow_pos_nonneg; lia. Qed.
+
+Lemma le_bytes_length : forall n v, length (le_bytes n v) = n.
+Proof. induction n as [|n IH]; intros v; cbn [le_bytes length]; [reflexivity | now rewrite IH]. Qed.
+
+Lemma le_bytes_bytes : forall n v, bytes (le_bytes n v).
+Proof.
+  induction n as [|n IH]; intros v; cbn [le_bytes]; constructor.
+  - unfold byte. lia.
+  - apply IH.
+Qed.
+
+(* decoding inverts encoding over the full width of the code: 0 <= v < 256^n *)
+Lemma le_value_le_bytes : forall n v, 0 <= v < 256 ^ Z.of_nat n -> le_value (le_bytes n v) = v.
+Proof.
+  induction n as [|n IH]; intros v Hv.
+  - change (256 ^ Z.of_nat 0) with 1 in Hv. cbn [le_bytes le_value]. lia.
+  - rewrite pow256_S in Hv. cbn [le_bytes le_value].
+    pose proof (pow256_pos n) as Hp.
+    rewrite IH by lia. lia.
+Qed.
+
+Lemma le_value_bound : forall bs, bytes bs -> 0 <= le_value bs < 256 ^ Z.of_nat (length bs).
+Proof.
+  induction 1 as [|b bs Hb Hbs IH]; cbn [le_value length].
+  - change (256 ^ Z.of_nat 0) with 1. lia.
+  - rewrite pow256_S. unfold byte in Hb. lia.
+Qed.
+
+(* and encoding inverts decoding of well-formed bytes *)
+Lemma le_bytes_le_value : forall bs, bytes bs -> le_bytes (length bs) (le_value bs) = bs.
+Proof.
+  induction 1 as [|b bs Hb Hbs IH]; cbn [le_value length le_bytes]; [reflexivity|].
+  unfold byte in Hb. f_equal.
+  - lia.
+  - replace ((b + 256 * le_value bs) / 256) with (le_value bs) by lia. exact IH.
+Qed.
+
+Lemma le_bytes_1 : forall v, byte v -> le_bytes 1 v = [v].
+Proof. intros v Hv. unfold byte in Hv. cbn [le_bytes]. f_equal. lia. Qed.
+
+Lemma le_bytes_2 : forall v, 0 <= v < 65536 -> le_bytes 2 v = le16 v.
+Proof. intros v Hv. cbn [le_bytes]. unfold le16. f_equal. f_equal. lia. Qed.
+
+Lemma le_bytes_4 : forall v, word32 v -> le_bytes 4 v = le32 v.
+Proof.
+  intros v Hv. unfold word32 in Hv. cbn [le_bytes]. unfold le32.
+  f_equal. f_equal. f_equal; [|f_equal]; lia.
+Qed.
+
+Lemma le_value_le16 : forall v, 0 <= v < 65536 -> le_value (le16 v) = v.
+Proof. intros v Hv. rewrite <- le_bytes_2 by exact Hv. apply le_value_le_bytes. exact Hv. Qed.
+
+Lemma le_value_le32 : forall v, word32 v -> le_value (le32 v) = v.
+Proof. intros v Hv. rewrite <- le_bytes_4 by exact Hv. apply le_value_le_bytes. exact Hv. Qed.
+
+(* ------------------------------------------------------------------ struct.pack *)
+Lemma pack_uint_ok : forall n r a args,
+  0 <= a < 256 ^ Z.of_nat n ->
+  pack_items (FUInt n :: r) (a :: args) = bind (pack_items r args) (fun bs => Ok (le_bytes n a ++ bs)).
+Proof.
+  intros n r a args Ha. cbn [pack_items].
+  replace ((0 <=? a) && (a <? 256 ^ Z.of_nat n)) with true; [reflexivity|].
+  symmetry. apply andb_true_intro. split; [apply Z.leb_le | apply Z.ltb_lt]; lia.
+Qed.
+
+Lemma pack_uint_bad : forall n r a args,
+  ~ (0 <= a < 256 ^ Z.of_nat n) -> pack_items (FUInt n :: r) (a :: args) = OtherError.
+Proof.
+  intros n r a args Ha. cbn [pack_items].
+  destruct ((0 <=? a) && (a <? 256 ^ Z.of_nat n)) eqn:E; [|reflexivity].
+  apply andb_prop in E. destruct E as [E1 E2]. apply Z.leb_le in E1. apply Z.ltb_lt in E2. lia.
+Qed.
+
+(* n values under n 'B' codes: the bytes themselves, or struct.error as soon as one is not a byte *)
+Lemma pack_bytes_ok : forall vals, bytes vals -> pack_items (repeat (FUInt 1) (length vals)) vals = Ok vals.
+Proof.
+  induction 1 as [|v vals Hv Hvs IH]; cbn [length repeat]; [reflexivity|].
+  rewrite pack_uint_ok by (change (256 ^ Z.of_nat 1) with 256; exact Hv).
+  rewrite IH. cbn [bind]. rewrite le_bytes_1 by exact Hv. reflexivity.
+Qed.
+
+Lemma pack_bytes_bad : forall vals, ~ bytes vals -> pack_items (repeat (FUInt 1) (length vals)) vals = OtherError.
+Proof.
+  induction vals as [|v vals IH]; intros Hn; cbn [length repeat].
+  - exfalso. apply Hn. constructor.
+  - assert (Hd : byte v \/ ~ byte v) by (unfold byte; lia).
+    destruct Hd as [Hv | Hv].
+    + rewrite pack_uint_ok by (change (256 ^ Z.of_nat 1) with 256; exact Hv).
+      rewrite IH; [reflexivity|]. intros Hvs. apply Hn. constructor; assumption.
+    + apply pack_uint_bad. change (256 ^ Z.of_nat 1) with 256. exact Hv.
+Qed.
+
+Lemma bytes_dec : forall vals, bytes vals \/ ~ bytes vals.
+Proof.
+  induction vals as [|v vals IH].
+  - left. constructor.
+  - assert (Hd : byte v \/ ~ byte v) by (unfold byte; lia).
+    destruct Hd as [Hv | Hv]; [destruct IH as [Hvs | Hvs]|].
+    + left. constructor; assumption.
+    + right. intros H. inversion H. contradiction.
+    + right. intros H. inversion H. contradiction.
+Qed.
+
+Lemma pack_pad : forall r args, pack_items (FPad :: r) args = bind (pack_items r args) (fun bs => Ok (0 :: bs)).
+Proof. reflexivity. Qed.
+
+(* ------------------------------------------------------------------ struct.unpack_from *)
+Lemma unpack_from_ok : forall fmt its buf off,
+  parse_fmt fmt = Some its -> 0 <= off -> Z.of_nat (calcsize its) <= Z.of_nat (length buf) - off ->
+  struct_unpack_from fmt buf off = Ok (unpack_items its (skipn (Z.to_nat off) buf)).
+Proof.
+  intros fmt its buf off Hp H0 Hs. unfold struct_unpack_from. rewrite Hp.
+  replace ((0 <=? off) && (Z.of_nat (calcsize its) <=? Z.of_nat (length buf) - off)) with true; [reflexivity|].
+  symmetry. apply andb_true_intro. split; apply Z.leb_le; lia.
+Qed.
+
+Lemma unpack_from_short : forall fmt its buf off,
+  parse_fmt fmt = Some its -> Z.of_nat (length buf) - off < Z.of_nat (calcsize its) ->
+  struct_unpack_from fmt buf off = OtherError.
+Proof.
+  intros fmt its buf off Hp Hs. unfold struct_unpack_from. rewrite Hp.
+  replace (Z.of_nat (calcsize its) <=? Z.of_nat (length buf) - off) with false.
+  - rewrite andb_false_r. reflexivity.
+  - symmetry. apply Z.leb_gt. lia.
+Qed.
+
+(* one 'I': the little-endian value of the four bytes at the offset *)
+Lemma unpack_one_word : forall fmt d off,
+  parse_fmt fmt = Some [FUInt 4] -> 0 <= off -> off + 4 <= Z.of_nat (length d) ->
+  unpack_one fmt d off = Ok (le_value (firstn 4 (skipn (Z.to_nat off) d))).
+Proof.
+  intros fmt d off Hp H0 Hl. unfold unpack_one.
+  rewrite (unpack_from_ok fmt [FUInt 4] d off Hp H0) by (cbn [calcsize fold_right item_size]; lia).
+  reflexivity.
+Qed.
+
+(* ------------------------------------------------------------------ the port/core byte *)
+Fixpoint zrange_from (lo : Z) (n : nat) : list Z :=
+  match n with O => [] | S m => lo :: zrange_from (lo + 1) m end.
+
+Lemma in_zrange_from : forall n lo x, lo <= x < lo + Z.of_nat n -> In x (zrange_from lo n).
+Proof.
+  induction n as [|n IH]; intros lo x Hx; [lia|].
+  cbn [zrange_from]. destruct (Z.eq_dec lo x) as [E|E]; [left; exact E|].
+  right. apply IH. lia.
+Qed.
+
+(* the finite fact, checked by computation over all 8 x 32 pairs ... *)
+Lemma portcpu_table :
+  forallb (fun x => forallb (fun y => Z.lor (Z.shiftl x 5) y =? 32 * x + y) (zrange_from 0 32)) (zrange_from 0 8)
+  = true.
+Proof. vm_compute. reflexivity. Qed.
+
+(* ... lifted to all values in range *)
+Lemma lor_shift_small : forall x y, 0 <= x < 8 -> 0 <= y < 32 -> Z.lor (Z.shiftl x 5) y = 32 * x + y.
+Proof.
+  intros x y Hx Hy. pose proof portcpu_table as T.
+  rewrite forallb_forall in T. specialize (T x (in_zrange_from 8 0 x ltac:(lia))).
+  rewrite forallb_forall in T. specialize (T y (in_zrange_from 32 0 y ltac:(lia))).
+  apply Z.eqb_eq in T. exact T.
+Qed.
+
+(* (port & 7) << 5 | (cpu & 0x1f), for every pair of integers (also negative, also too wide) *)
+Lemma portcpu_byte : forall port cpu,
+  Z.lor (Z.shiftl (Z.land port 7) 5) (Z.land cpu 31) = 32 * (port mod 8) + cpu mod 32.
+Proof.
+  intros port cpu.
+  change 7 with (Z.ones 3). change 31 with (Z.ones 5).
+  rewrite !Z.land_ones by lia. change (2 ^ 3) with 8. change (2 ^ 5) with 32.
+  apply lor_shift_small; lia.
+Qed.
+
+Lemma shiftr5 : forall b, Z.shiftr b 5 = b / 32.
+Proof. intros b. rewrite Z.shiftr_div_pow2 by lia. reflexivity. Qed.
+
+Lemma land31 : forall b, Z.land b 31 = b mod 32.
+Proof. intros b. change 31 with (Z.ones 5). rewrite Z.land_ones by lia. reflexivity. Qed.
